@@ -60,6 +60,26 @@ void harness(void) {
     OBLIGE(p->origin == &inv && q->origin == &inv, "C09.2 the expansion remembers the invocation token (for __LINE__/__FILE__)");
     OBLIGE(p->at_bol == inv.at_bol && p->has_space == inv.has_space, "C19.3 the first token of the expansion takes over the invocation's line-start and white-space flags");
   }
+#elif FN == 3
+  // an object-like macro with an EMPTY replacement list: the invocation vanishes and the following source token keeps
+  // its own line-start flag (a '#' that starts the next line must stay a directive; a token on the same line must not
+  // become one)
+  MAC.is_objlike = 1; MAC.body = &eof;
+  ASSUME(!member(a0, an0, a1, an1, 1));
+  nxt.loc = "#"; nxt.at_bol = nondet_bool_(); nxt.has_space = nondet_bool_(); _Bool bol0 = nxt.at_bol;
+  static Token n2; n2 = (Token){0}; n2.kind = TK_EOF; n2.file = &f; nxt.next = &n2;
+  bool r = expand_macro(&rest, &inv);
+  REACH("returns");
+  OBLIGE(r && rest == &nxt, "C09.2 an empty expansion leaves the rest of the input");
+  OBLIGE(nxt.at_bol == bol0 && is_hash(&nxt) == bol0, "C10.2 the token after an empty macro expansion keeps its own line-start status: a directive on the next line stays a directive, text on the same line does not become one");
+#elif FN == 4
+  // a '#' produced by macro expansion is never a directive (6.10.3.4p3), even at the start of a line
+  MAC.is_objlike = 1; b1t.loc = "#"; b1t.kind = TK_PUNCT; b1t.next = &eof; b1t.hideset = 0;
+  ASSUME(!member(a0, an0, a1, an1, 1));
+  bool r = expand_macro(&rest, &inv);
+  REACH("returns");
+  OBLIGE(r && rest != &b1t && rest->len == 1 && rest->loc[0] == '#', "C09.2 the expansion is a copy of the replacement list");
+  OBLIGE(!is_hash(rest), "C10.2 a '#' that results from macro replacement is not processed as a directive, wherever it stands");
 #else
   MAC.is_objlike = 0;
   ASSUME(!member(a0, an0, a1, an1, 1));
